@@ -1,3 +1,4 @@
+import Mercure.Props.C03Claims
 import Mercure.Model.Subscribe
 import Mercure.Lemmas.Auth
 /-
@@ -138,3 +139,16 @@ end Mercure.C03
 #print axioms Mercure.C03.invalid_token_subscribe_401
 #print axioms Mercure.C03.invalid_token_api_refused
 #print axioms Mercure.C03.subscribe_rights_from_token
+-- from the bytes of the payload to the claims (Model/Claims; statements in Props/C03Claims)
+#print axioms Mercure.C03Claims.claimsOf_encode
+#print axioms Mercure.C03Claims.effective_of_encode
+#print axioms Mercure.C03Claims.wrong_kind_is_invalid
+#print axioms Mercure.C03Claims.non_string_element_is_invalid
+#print axioms Mercure.C03Claims.unknown_key_ignored
+#print axioms Mercure.C03Claims.fresh_array_is_the_list
+#print axioms Mercure.C03Claims.parseJSON_render
+#print axioms Mercure.C03Claims.repeated_key_merges
+#print axioms Mercure.C03Claims.null_element_keeps_stale_value
+#print axioms Mercure.C03Claims.folded_keys
+#print axioms Mercure.C03Claims.null_claims
+#print axioms Mercure.C03Claims.dates
